@@ -98,6 +98,7 @@ def handle (kind : String) (fs : List (String × String)) : String :=
   | "cursor" => handleCursor fs
   | "sim" => handleSim fs
   | "leak" => s!"DISAGREE BAD:goroutines-still-blocked-after-shutdown:{getD fs "msg" "?"} nt=0 br=leak "
+  | "stuck" => s!"DISAGREE BAD:scenario-made-no-progress-for-{getD fs "after" "?"}-of-real-time(virtual-time-cannot-advance:a-goroutine-waits-for-a-lock) nt=0 br=stuck "
   | _ => "PARSE kind"
 
 end Swim.Drv.C03
